@@ -342,6 +342,9 @@ def run(ctx):
     ctx.guarded('C12-D6', 'dobs@misc', d6_misc, ctx, m)
     ctx.rule('C12-D7', 'sample reconstruction (delta + own replica mean); gradient table orientation')
     ctx.guarded('C12-D7', 'dobs@samples', d7_samples, ctx, m)
+    from .. import forwarding
+    for w_, c_ in (('read_dobs', 'import_dobs_string'), ('write_dobs', 'create_dobs_string'), ('write_pobs', 'create_pobs_string')):
+        ctx.guarded('C12-D6', 'dobs@forwarding', forwarding.check, ctx, 'C12-D6', m, w_, m, c_)
 
 
 SELFTEST = [
@@ -360,5 +363,6 @@ SELFTEST = [
     ('pobs-full-sample', 'pyerrors/input/dobs.py', "num = o.deltas[names[r]][c] + o.r_values[names[r]]", "num = o.deltas[names[r]][c]", 'C12-D2'),
     ('pobs-global-mean', 'pyerrors/input/dobs.py', "num = o.deltas[names[r]][c] + o.r_values[names[r]]", "num = o.deltas[names[r]][c] + o.value", 'C12-D7'),
     ('grad-orientation-by-shape', 'pyerrors/input/dobs.py', "            if grad.shape[1] == 1:\n                gradd[cname] = [grad for i in range(len(mean))]", "            if grad.shape[0] == len(mean):\n                gradd[cname] = grad", 'C12-D7'),
+    ('separator-not-forwarded', 'pyerrors/input/dobs.py', "    return import_dobs_string(content, full_output, separator_insertion=separator_insertion)", "    return import_dobs_string(content, full_output)", 'C12-D6'),
     ('benign-separator-style', 'pyerrors/input/dobs.py', "if separator_insertion is None or separator_insertion is False:", "if separator_insertion in [None, False]:", 'BENIGN'),
 ]
